@@ -24,6 +24,8 @@ EXTENDS Naturals, Integers, Sequences, FiniteSets, TLC, SequencesExt, FiniteSets
 CONSTANTS NV,            \* development versions are 1..NV (in cascade order)
           StabV,         \* versions that also have a stabilization branch
           HasHf,         \* TRUE: there is also one hotfix branch (a destination on its own, with its own queue)
+          Cmds,          \* commands a user may write in a comment: subset of {"reset", "force_reset"}
+          Rewrites,      \* TRUE: users may restart (force-push) a source branch and commit on integration branches
           NP,            \* number of user pull requests
           UseQueue,      \* settings.use_queue
           SkipQueue,     \* settings.skip_queue_when_not_needed
@@ -79,19 +81,21 @@ Pos(b) == IF b = Hf THEN 0 ELSE CHOOSE j \in DOMAIN Casc : Casc[j] = b     \* th
 Set(f, k, v) == (k :> v) @@ f
 Del(f, K) == [x \in DOMAIN f \ K |-> f[x]]
 
-VARIABLES G,      \* commits: [n, anc : 1..n -> SUBSET 1..n, lab : 1..n -> {"base","user","merge","third"}]
+VARIABLES G,      \* commits: [n, anc : 1..n -> SUBSET 1..n, par : 1..n -> SUBSET 1..n,
+                  \*           lab : 1..n -> {"base","user","manual","merge","third"}]
           refs,   \* remote heads: name -> commit
           pr,     \* 1..NP -> [st, dst, appr, byp, wait, nooct, cmd]
           child,  \* open integration pull requests: set of <<p, branch>>
           bs,     \* build status: commit -> status (absent = NOTSTARTED)
           greeted,\* PRs that received the init message
           job,    \* [on, kind, arg, plan, status, loc, pend]
+          cmd,    \* command written on each PR after the robot's last message there ("" = none)
           lastmsg,\* code of the robot's last message on each PR (messages equal to it are not posted again);
                   \* it only decides whether a comment operation exists, never a ref: hidden by VIEW
           last,   \* label of the last step (for replay; hidden by VIEW)
           out     \* JSON projection of the state (only when EmitJson; hidden by VIEW)
-vars == <<G, refs, pr, child, bs, greeted, job, lastmsg, last, out>>
-View == <<G, refs, pr, child, bs, greeted, job>>
+vars == <<G, refs, pr, child, bs, greeted, job, cmd, lastmsg, last, out>>
+View == <<G, refs, pr, child, bs, greeted, job, cmd>>
 
 NoJob == [on |-> FALSE, kind |-> "", arg |-> 0, plan |-> <<>>, status |-> "", rej |-> {}, tp |-> 0]
 
@@ -103,6 +107,7 @@ NewCommit(g, parents, label) ==
   LET n == g.n + 1
   IN [n |-> n,
       anc |-> g.anc @@ (n :> ({n} \cup UNION {g.anc[x] : x \in parents})),
+      par |-> g.par @@ (n :> parents),
       lab |-> g.lab @@ (n :> label)]
 
 (***************************************************************************)
@@ -299,6 +304,46 @@ DirectMerge(g, loc, p, T, i, prevd, nooct) ==
                 ELSE Merge3(nooct, g, loc[dn], prevd, loc[WN(p, T[i])])
        IN DirectMerge(r.g, Set(loc, dn, r.t), p, T, i + 1, r.t, nooct)
 
+\* update_integration_branches, first half: the history of the integration branches must come from the
+\* current source branch, the previous integration branch and the destination only
+DiffC(g, a, b) == g.anc[a] \ g.anc[b]
+RECURSIVE Mismatch(_, _, _, _, _, _, _)
+Mismatch(g, loc, p, T, i, prev, prevdst) ==
+  IF i > Len(T) THEN FALSE
+  ELSE LET w == loc[WN(p, T[i])]
+           d == loc[BN(T[i])]
+           prevset == DiffC(g, prev, prevdst)
+           dstset == DiffC(g, d, prevdst)
+           wset == DiffC(g, w, d) \ prevset
+           orphan == \E c \in wset : Cardinality(g.par[c]) = 1 /\ g.par[c] \cap wset = {}
+           alien == \E c \in wset : ~ (g.par[c] \subseteq (prevset \cup dstset \cup wset))
+       IN orphan \/ alien \/ Mismatch(g, loc, p, T, i + 1, w, d)
+
+\* commands.py _reset: commits of an integration branch that are neither the robot's merges nor (past or
+\* present) commits of the source branch would be lost
+RECURSIVE LossyScan(_, _, _, _)
+LossyScan(g, cs, feature, danc) ==
+  IF cs = <<>> THEN FALSE
+  ELSE LET c == Head(cs)
+       IN IF c \in feature \/ g.lab[c] = "merge" THEN LossyScan(g, Tail(cs), feature, danc)
+          ELSE IF Cardinality(g.par[c]) = 1 /\ (g.par[c] \subseteq feature \/ g.par[c] \subseteq danc)
+               THEN LossyScan(g, Tail(cs), feature \cup {c}, danc)
+          ELSE TRUE
+LossyW(g, r, p, b) ==
+  LossyScan(g, SetToSortSeq(DiffC(g, r[WN(p, b)], r[BN(b)]), <), DiffC(g, r[SrcN(p)], r[BN(b)]), g.anc[r[BN(b)]])
+ResetPlan(g, r, p, T, force, pre) ==
+  LET wbs == {T[j] : j \in {x \in 1..Len(T) : WN(p, T[x]) \in DOMAIN r}}
+      ws == {WN(p, b) : b \in wbs}
+      kids == {b \in wbs : <<p, b>> \in child}
+      kseq == SetToSortSeq(kids, LAMBDA x, y : Pos(x) < Pos(y))
+  IN IF wbs = {} THEN [g |-> g, plan |-> pre \o <<CommentOp(p, "reset_complete")>>, status |-> "ResetComplete", pend |-> <<>>]
+     ELSE IF ~ force /\ \E b \in wbs : LossyW(g, r, p, b)
+          THEN [g |-> g, plan |-> pre \o <<CommentOp(p, "lossy_reset")>>, status |-> "LossyResetWarning", pend |-> <<>>]
+     ELSE [g |-> g,
+           plan |-> pre \o <<PushAllFrom(r, Del(r, ws), TRUE)>> \o [j \in DOMAIN kseq |-> DeclinePrOp(p, kseq[j])]
+                    \o <<CommentOp(p, "reset_complete")>>,
+           status |-> "ResetComplete", pend |-> <<>>]
+
 Worst(S) ==   \* check_build_status ordering
   IF "FAILED" \in S THEN "FAILED" ELSE IF "STOPPED" \in S THEN "STOPPED"
   ELSE IF "NOTSTARTED" \in S THEN "NOTSTARTED" ELSE IF "INPROGRESS" \in S THEN "INPROGRESS"
@@ -314,6 +359,10 @@ EvalPrPlan(g, r, p) ==
   IN
   IF P.st = "none" THEN Res(g, <<>>, "NoSuchPr")
   ELSE IF P.st = "merged" THEN Res(g, <<>>, "NothingToDo")
+  \* handle_comments: a command written after the robot's last message is executed first of all (even on a
+  \* held-back or declined pull request); the greeting, when it is still to be posted, comes after the command
+  \* and hides it
+  ELSE IF cmd[p] # "" /\ p \in greeted /\ SrcN(p) \in DOMAIN r THEN ResetPlan(g, r, p, T, cmd[p] = "force_reset", <<>>)
   ELSE IF P.wait THEN Res(g, Greet(p), "NothingToDo")
   ELSE IF P.st = "declined" THEN              \* handle_declined_pull_request
     LET kids == {b \in Branches : <<p, b>> \in child}
@@ -345,7 +394,9 @@ EvalPrPlan(g, r, p) ==
       tips == {ITip(loc1, p, T, j) : j \in 1..n}
       worst == Worst({Status(c) : c \in tips})
   IN
-  IF ~ P.appr THEN Res(g1, pre \o <<CommentOp(p, "need_approval")>>, "ApprovalRequired")
+  IF Mismatch(g, loc0, p, T, 2, r[SrcN(p)], r[BN(T[1])])
+  THEN Res(g, Greet(p) \o <<CommentOp(p, "history_mismatch")>>, "BranchHistoryMismatch")
+  ELSE IF ~ P.appr THEN Res(g1, pre \o <<CommentOp(p, "need_approval")>>, "ApprovalRequired")
   ELSE IF ~ P.byp /\ worst \in {"FAILED", "STOPPED"} THEN Res(g1, pre \o <<CommentOp(p, "build_failed")>>, "BuildFailed")
   ELSE IF ~ P.byp /\ worst = "NOTSTARTED" THEN Res(g1, pre, "BuildNotStarted")
   ELSE IF ~ P.byp /\ worst = "INPROGRESS" THEN Res(g1, pre, "BuildInProgress")
@@ -408,6 +459,7 @@ ForceMergePlan(g, r) ==
 NBase == Len(Casc) + 1 + (IF HasHf THEN 1 ELSE 0)
 G0 == [n |-> NBase,
        anc |-> [c \in 1..NBase |-> IF HasHf /\ c = NBase THEN {1, c} ELSE 1..c],
+       par |-> [c \in 1..NBase |-> IF c = 1 THEN {} ELSE IF HasHf /\ c = NBase THEN {1} ELSE {c - 1}],
        lab |-> [c \in 1..NBase |-> "base"]]
 Init ==
   /\ G = G0
@@ -418,6 +470,7 @@ Init ==
   /\ bs = <<>>
   /\ greeted = {}
   /\ lastmsg = [p \in 1..NP |-> ""]
+  /\ cmd = [p \in 1..NP |-> ""]
   /\ job = NoJob
   /\ last = <<"init">>
 
@@ -436,7 +489,7 @@ OpenPR(p, dst) ==
         /\ refs' = Set(refs, SrcN(p), g2.n)
   /\ pr' = [pr EXCEPT ![p] = [@ EXCEPT !.st = "open", !.dst = dst, !.appr = AutoApprove]]
   /\ last' = <<"open_pr", p, dst, G'.n>>
-  /\ UNCHANGED <<child, bs, greeted, job, lastmsg>>
+  /\ UNCHANGED <<child, bs, greeted, job, lastmsg, cmd>>
 
 PushSrc(p) ==
   /\ Idle /\ pr[p].st \in {"open", "merged"} /\ SrcN(p) \in DOMAIN refs
@@ -444,19 +497,19 @@ PushSrc(p) ==
      IN /\ G' = g2
         /\ refs' = Set(refs, SrcN(p), g2.n)
   /\ last' = <<"push_src", p, G'.n>>
-  /\ UNCHANGED <<pr, child, bs, greeted, job, lastmsg>>
+  /\ UNCHANGED <<pr, child, bs, greeted, job, lastmsg, cmd>>
 
 Approve(p) ==
   /\ Idle /\ pr[p].st = "open" /\ ~ pr[p].appr
   /\ pr' = [pr EXCEPT ![p].appr = TRUE]
   /\ last' = <<"approve", p>>
-  /\ UNCHANGED <<G, refs, child, bs, greeted, job, lastmsg>>
+  /\ UNCHANGED <<G, refs, child, bs, greeted, job, lastmsg, cmd>>
 
 Unapprove(p) ==
   /\ Idle /\ pr[p].st = "open" /\ pr[p].appr /\ ~ AutoApprove
   /\ pr' = [pr EXCEPT ![p].appr = FALSE]
   /\ last' = <<"unapprove", p>>
-  /\ UNCHANGED <<G, refs, child, bs, greeted, job, lastmsg>>
+  /\ UNCHANGED <<G, refs, child, bs, greeted, job, lastmsg, cmd>>
 
 SetOpt(p, o) ==
   /\ Idle /\ pr[p].st = "open"
@@ -465,13 +518,38 @@ SetOpt(p, o) ==
      \/ o = "unwait" /\ pr[p].wait /\ pr' = [pr EXCEPT ![p].wait = FALSE]
      \/ o = "nooct" /\ ~ pr[p].nooct /\ pr' = [pr EXCEPT ![p].nooct = TRUE]
   /\ last' = <<"opt", p, o>>
-  /\ UNCHANGED <<G, refs, child, bs, greeted, job, lastmsg>>
+  /\ UNCHANGED <<G, refs, child, bs, greeted, job, lastmsg, cmd>>
+
+Command(p, c) ==
+  /\ Idle /\ pr[p].st = "open" /\ cmd[p] = "" /\ c \in Cmds
+  /\ cmd' = [cmd EXCEPT ![p] = c]
+  /\ last' = <<"cmd", p, c>>
+  /\ UNCHANGED <<G, refs, pr, child, bs, greeted, job, lastmsg>>
+
+\* the author starts the work again: the source branch is force-pushed to a new commit on top of the destination
+RestartSrc(p) ==
+  /\ Rewrites /\ Idle /\ pr[p].st = "open" /\ SrcN(p) \in DOMAIN refs /\ ~ MergedNow(p)
+  /\ LET g2 == NewCommit(G, {refs[BN(pr[p].dst)]}, "user")
+     IN /\ G' = g2
+        /\ refs' = Set(refs, SrcN(p), g2.n)
+  /\ last' = <<"restart_src", p, G'.n>>
+  /\ UNCHANGED <<pr, child, bs, greeted, job, lastmsg, cmd>>
+
+\* the author commits directly on an integration branch (e.g. to adapt the change to a later version)
+ManualW(p, b) ==
+  /\ Rewrites /\ Idle /\ pr[p].st = "open" /\ WN(p, b) \in DOMAIN refs
+  /\ ~ \E c \in G.anc[refs[WN(p, b)]] : G.lab[c] = "manual"
+  /\ LET g2 == NewCommit(G, {refs[WN(p, b)]}, "manual")
+     IN /\ G' = g2
+        /\ refs' = Set(refs, WN(p, b), g2.n)
+  /\ last' = <<"manual_w", p, b, G'.n>>
+  /\ UNCHANGED <<pr, child, bs, greeted, job, lastmsg, cmd>>
 
 Decline(p) ==
   /\ Idle /\ pr[p].st = "open" /\ ~ MergedNow(p)
   /\ pr' = [pr EXCEPT ![p].st = "declined"]
   /\ last' = <<"decline", p>>
-  /\ UNCHANGED <<G, refs, child, bs, greeted, job, lastmsg>>
+  /\ UNCHANGED <<G, refs, child, bs, greeted, job, lastmsg, cmd>>
 
 Reportable == {refs[n] : n \in {x \in DOMAIN refs : Kind(x) \in {"src", "w", "q", "qw"}}}
 EvalCommits == IF ReportFine THEN Reportable
@@ -480,7 +558,7 @@ Report(c, s) ==
   /\ ReportFine /\ Idle /\ c \in Reportable /\ Status(c) # s /\ (ReportOnce => c \notin DOMAIN bs)
   /\ bs' = Set(bs, c, s)
   /\ last' = <<"report", c, s>>
-  /\ UNCHANGED <<G, refs, pr, child, greeted, job, lastmsg>>
+  /\ UNCHANGED <<G, refs, pr, child, greeted, job, lastmsg, cmd>>
 \* coarse CI: every integration tip of p (source + w/), or every queue commit of p
 PrTips(p) == {refs[n] : n \in {x \in DOMAIN refs : (Kind(x) \in {"src", "w"}) /\ x[2] = p}}
 QwTips(p) == {refs[n] : n \in {x \in DOMAIN refs : Kind(x) = "qw" /\ x[2] = p}}
@@ -489,7 +567,7 @@ ReportSet(tag, p, S, s) ==
   /\ ReportOnce => S \ DOMAIN bs # {}
   /\ bs' = [c \in DOMAIN bs \cup S |-> IF c \in S /\ (~ ReportOnce \/ c \notin DOMAIN bs) THEN s ELSE bs[c]]
   /\ last' = <<tag, p, s>>
-  /\ UNCHANGED <<G, refs, pr, child, greeted, job, lastmsg>>
+  /\ UNCHANGED <<G, refs, pr, child, greeted, job, lastmsg, cmd>>
 
 (***************************************************************************)
 (* Bert-E                                                                  *)
@@ -513,7 +591,7 @@ ApplyPushAll(g, r, rej, op) ==     \* git push --all --atomic [--prune]
                  fail |-> FALSE]
      ELSE [refs |-> r, fail |-> TRUE]
 \* messages that are posted even when equal to the robot's previous message (exceptions.py)
-AlwaysPost == {"integration_data_created", "partial_merge", "help", "reset_complete"}
+AlwaysPost == {"integration_data_created", "partial_merge", "help", "reset_complete", "lossy_reset"}
 \* st = [refs, child, greeted, lastmsg, fail]
 OpEffect(g, st, rej, op) ==
   IF op.k = "push" THEN LET x == ApplyPush(g, st.refs, rej, op) IN [st EXCEPT !.refs = x.refs, !.fail = x.fail]
@@ -521,13 +599,15 @@ OpEffect(g, st, rej, op) ==
   ELSE IF op.k = "delref" THEN (IF op.names \cap rej = {} THEN [st EXCEPT !.refs = Del(st.refs, op.names)]
                                 ELSE [st EXCEPT !.fail = TRUE])
   ELSE IF op.k = "comment" THEN [st EXCEPT !.greeted = IF op.code = "init" THEN @ \cup {op.p} ELSE @,
-                                            !.lastmsg = [@ EXCEPT ![op.p] = op.code]]
+                                            !.lastmsg = [@ EXCEPT ![op.p] = op.code],
+                                            \* commands are looked for after the robot's last message only
+                                            !.cmd = [@ EXCEPT ![op.p] = ""]]
   ELSE IF op.k = "createpr" THEN [st EXCEPT !.child = @ \cup {<<op.p, op.b>>}]
   ELSE [st EXCEPT !.child = @ \ {<<op.p, op.b>>}]
 RECURSIVE RunPlan(_, _, _)
 RunPlan(g, st, plan) ==
   IF plan = <<>> \/ st.fail THEN st ELSE RunPlan(g, OpEffect(g, st, {}, Head(plan)), Tail(plan))
-Cur == [refs |-> refs, child |-> child, greeted |-> greeted, lastmsg |-> lastmsg, fail |-> FALSE]
+Cur == [refs |-> refs, child |-> child, greeted |-> greeted, lastmsg |-> lastmsg, cmd |-> cmd, fail |-> FALSE]
 \* _send_comment: a message equal to the robot's last message on that pull request is not posted
 RECURSIVE Dedupe(_, _)
 Dedupe(plan, lm) ==
@@ -547,13 +627,14 @@ Begin(kind, arg, e) ==
   /\ IF Atomic
      THEN LET st == RunPlan(e.g, Cur, Dedupe(e.plan, lastmsg))
           IN /\ refs' = st.refs /\ child' = st.child /\ greeted' = st.greeted /\ lastmsg' = st.lastmsg
+             /\ cmd' = st.cmd
              /\ job' = NoJob
              /\ pr' = Latch(e.g, st.refs)
              /\ last' = <<"job", kind, arg, IF st.fail THEN "PushFailedException" ELSE e.status, e.pend>>
      ELSE /\ job' = [on |-> TRUE, kind |-> kind, arg |-> arg, plan |-> Dedupe(e.plan, lastmsg), status |-> e.status,
                      rej |-> {}, tp |-> 0]
           /\ last' = <<"job_begin", kind, arg, e.status, e.pend>>
-          /\ UNCHANGED <<refs, child, greeted, pr, lastmsg>>
+          /\ UNCHANGED <<refs, child, greeted, pr, lastmsg, cmd>>
   /\ UNCHANGED bs
 
 JobBegin ==
@@ -569,6 +650,7 @@ ApplyOp ==
   /\ job.on /\ job.plan # <<>>
   /\ LET st == OpEffect(G, Cur, job.rej, Head(job.plan))
      IN /\ refs' = st.refs /\ child' = st.child /\ greeted' = st.greeted /\ lastmsg' = st.lastmsg
+        /\ cmd' = st.cmd
         /\ job' = IF st.fail THEN [job EXCEPT !.plan = <<>>, !.status = "PushFailedException", !.rej = {}]
                   ELSE [job EXCEPT !.plan = Tail(job.plan), !.rej = {}]
   /\ last' = <<"op", Head(job.plan).k>>
@@ -579,20 +661,20 @@ JobEnd ==
   /\ job' = NoJob
   /\ pr' = Latch(G, refs)
   /\ last' = <<"job_end", job.kind, job.arg, job.status>>
-  /\ UNCHANGED <<G, refs, child, bs, greeted, lastmsg>>
+  /\ UNCHANGED <<G, refs, child, bs, greeted, lastmsg, cmd>>
 
 (* faults and third parties, only inside a job, at most one per job *)
 Crash ==
   /\ Faults /\ "crash" \in FaultKinds /\ job.on /\ job.plan # <<>> /\ job.tp = 0
   /\ job' = [job EXCEPT !.plan = <<>>, !.status = "Crashed", !.tp = 1]
   /\ last' = <<"crash", Len(job.plan)>>
-  /\ UNCHANGED <<G, refs, pr, child, bs, greeted, lastmsg>>
+  /\ UNCHANGED <<G, refs, pr, child, bs, greeted, lastmsg, cmd>>
 RejectRef(n) ==
   /\ Faults /\ "reject" \in FaultKinds /\ job.on /\ job.plan # <<>> /\ job.tp = 0
   /\ Head(job.plan).k \in {"push", "pushall", "delref"}
   /\ job' = [job EXCEPT !.rej = {n}, !.tp = 1]
   /\ last' = <<"reject", n>>
-  /\ UNCHANGED <<G, refs, pr, child, bs, greeted, lastmsg>>
+  /\ UNCHANGED <<G, refs, pr, child, bs, greeted, lastmsg, cmd>>
 ThirdCreate ==
   /\ Faults /\ "third" \in FaultKinds /\ job.on /\ job.plan # <<>> /\ job.tp = 0 /\ ThirdN \notin DOMAIN refs
   /\ Head(job.plan).k \in {"push", "pushall", "delref"}
@@ -600,7 +682,7 @@ ThirdCreate ==
      IN G' = g2 /\ refs' = Set(refs, ThirdN, g2.n)
   /\ job' = [job EXCEPT !.tp = 1]
   /\ last' = <<"third_create">>
-  /\ UNCHANGED <<pr, child, bs, greeted, lastmsg>>
+  /\ UNCHANGED <<pr, child, bs, greeted, lastmsg, cmd>>
 ThirdPushSrc(p) ==
   /\ Faults /\ "third" \in FaultKinds /\ job.on /\ job.plan # <<>> /\ job.tp = 0 /\ SrcN(p) \in DOMAIN refs
   /\ Head(job.plan).k \in {"push", "pushall", "delref"}
@@ -608,7 +690,7 @@ ThirdPushSrc(p) ==
      IN G' = g2 /\ refs' = Set(refs, SrcN(p), g2.n)
   /\ job' = [job EXCEPT !.tp = 1]
   /\ last' = <<"third_push_src", p>>
-  /\ UNCHANGED <<pr, child, bs, greeted, lastmsg>>
+  /\ UNCHANGED <<pr, child, bs, greeted, lastmsg, cmd>>
 
 \* the owner rewinds the source branch by one commit while a job is running
 ParentOf(g, c) == CHOOSE x \in g.anc[c] \ {c} : \A y \in g.anc[c] \ {c} : y <= x
@@ -619,12 +701,15 @@ ThirdRewindSrc(p) ==
   /\ refs' = Set(refs, SrcN(p), ParentOf(G, refs[SrcN(p)]))
   /\ job' = [job EXCEPT !.tp = 1]
   /\ last' = <<"third_rewind_src", p>>
-  /\ UNCHANGED <<G, pr, child, bs, greeted, lastmsg>>
+  /\ UNCHANGED <<G, pr, child, bs, greeted, lastmsg, cmd>>
 
 Next ==
   \/ \E p \in 1..NP, d \in Branches : OpenPR(p, d)
   \/ \E p \in 1..NP : PushSrc(p) \/ Approve(p) \/ Decline(p) \/ Unapprove(p)
   \/ \E p \in 1..NP, o \in Opts : SetOpt(p, o)
+  \/ \E p \in 1..NP, c \in Cmds : Command(p, c)
+  \/ \E p \in 1..NP : RestartSrc(p)
+  \/ \E p \in 1..NP, b \in Branches : ManualW(p, b)
   \/ \E c \in 1..G.n, s \in RepStatuses : Report(c, s)
   \/ \E p \in 1..NP, s \in RepStatuses : ReportSet("report_pr", p, PrTips(p), s) \/ ReportSet("report_qw", p, QwTips(p), s)
   \/ JobBegin \/ ApplyOp \/ JobEnd
@@ -684,6 +769,30 @@ JobKindNow == IF Atomic THEN (IF last'[1] = "job" THEN last'[2] ELSE "") ELSE jo
 C20_EntryFate == [][~ Faults => \A n \in DOMAIN refs : (Kind(n) = "qw" /\ n \notin DOMAIN refs') =>
                       \/ JobKindNow \in {"RebuildQueues", "DeleteQueues"}
                       \/ BN(BranchOf(n)) \in DOMAIN refs' /\ Leq(G', refs[n], refs'[BN(BranchOf(n))])]_vars
+JobStatusNow == IF Atomic THEN (IF last'[1] = "job" THEN last'[4] ELSE "") ELSE (IF job.on /\ job'.on /\ job'.tp = job.tp THEN job.status ELSE "")
+JobArgNow == IF Atomic THEN last'[3] ELSE job.arg
+JobPrNow == IF JobKindNow = "EvalChild" THEN JobArgNow[1] ELSE JobArgNow
+\* a commit a user made on an integration branch is never dropped by the robot, except on a declined pull
+\* request, on an explicit force_reset, by the queue reset jobs, or when the pull request is merged from the queue (a commit
+\* made on an integration branch AFTER the pull request entered the queue is not part of what is merged and
+\* disappears with the integration branch: behaviour of the code, recorded in DESIGN.md as an observation)
+ReachFrom(g, r, c) == \E n \in DOMAIN r : c \in g.anc[r[n]]
+C15_ManualKept == [][\A c \in 1..G.n : (G.lab[c] = "manual" /\ ReachFrom(G, refs, c) /\ ~ ReachFrom(G', refs', c)) =>
+                       \/ JobKindNow \in {"RebuildQueues", "DeleteQueues"}
+                       \/ \E p \in 1..NP : /\ (pr[p].st = "declined" \/ cmd[p] = "force_reset" \/ JobStatusNow \in {"Merged", "SuccessMessage", "PartialMerge"})
+                                            /\ \E n \in DOMAIN refs : Kind(n) = "w" /\ n[2] = p /\ c \in G.anc[refs[n]]]_vars
+\* reset / force_reset touch only the integration branches and integration pull requests of their own pull request
+C15_OwnOnly == [][(JobStatusNow \in {"ResetComplete", "LossyResetWarning"} /\ JobKindNow \in {"EvalPR", "EvalChild"}) =>
+                    /\ DOMAIN refs' \subseteq DOMAIN refs
+                    /\ \A n \in DOMAIN refs : (Kind(n) = "w" /\ n[2] = JobPrNow) \/ (n \in DOMAIN refs' /\ refs'[n] = refs[n])
+                    /\ child' \subseteq child /\ \A x \in child \ child' : x[1] = JobPrNow]_vars
+\* a refused reset deletes nothing
+C15_LossyRefuses == [][JobStatusNow = "LossyResetWarning" => (refs' = refs /\ child' = child)]_vars
+\* a command is executed at most once: whenever a reset plan has run, the command is no longer pending
+C10_CmdConsumed == [][\A p \in 1..NP :
+                        (/\ IF Atomic THEN last'[1] = "job" ELSE job.on /\ ~ job'.on
+                         /\ (IF Atomic THEN last'[4] ELSE job.status) \in {"ResetComplete", "LossyResetWarning"}
+                         /\ JobKindNow \in {"EvalPR", "EvalChild"} /\ JobPrNow = p) => cmd'[p] = ""]_vars
 C19_Children == \A x \in child : pr[x[1]].st # "none" /\ \E j \in 2..Len(Targets(pr[x[1]].dst)) : Targets(pr[x[1]].dst)[j] = x[2]
 TypeOK == G.n >= NBase
 =============================================================================
